@@ -840,3 +840,69 @@ T('k18e_view_calls_names_method', ['C18'], (A, _APP_REPR_DEF, _APP_REPR_DEF + ''
 T('k18e_view_constant_table_getattr', ['C18'], (META, "        r_info['url_pattern'] = r.pattern\n",
                                                  "        for a in ('pattern', 'methods'):\n            r_info['route_' + a] = repr(getattr(r, a))\n        r_info['url_pattern'] = r.pattern\n"))
 T('k18e_repr_dict_of_plain_record', ['C18'], (A, "        return '<%s exceptions=%r allowed_methods=%r>' % args", "        return '<%s %r>' % (self.__class__.__name__, vars(self))"))
+
+# R18.a: the listed value is a text made from the resource value, never the host object itself
+B('k18_raw_value_listed', ['C18'], 'R18.a', (META, GRI, '''def get_resource_info(_application):
+    ret = []
+    for key, val in _application.resources.items():
+        if 'secret' in key:
+            ret.append({'key': key, 'value': '[REDACTED]'})
+        else:
+            ret.append({'key': key, 'value': val})
+    return ret
+'''))
+B('k18_raw_value_in_comprehension', ['C18'], 'R18.a', (META, GRI, '''def get_resource_info(_application):
+    return [{'key': key, 'value': '[REDACTED]' if 'secret' in key else val}
+            for key, val in _application.resources.items()]
+'''))
+B('k18_raw_value_from_helper', ['C18'], 'R18.a', (META, GRI, '''def shown_resource_value(key, val):
+    if 'secret' in key:
+        return '[REDACTED]'
+    return val
+
+
+def get_resource_info(_application):
+    return [{'key': key, 'value': shown_resource_value(key, val)} for key, val in _application.resources.items()]
+'''))
+B('k18_raw_value_row_update', ['C18'], 'R18.a', (META, "            trunc_val = _trunc(repr(val))\n        ret.append({'key': key, 'value': trunc_val})",
+                                                  "            trunc_val = _trunc(repr(val))\n        cur = {'key': key, 'value': trunc_val}\n        if 'secret' not in key:\n            cur.update(raw=val)\n        ret.append(cur)"))
+T('k18_value_percent_r', ['C18'], (META, "            trunc_val = _trunc(repr(val))", "            trunc_val = _trunc('%r' % (val,))"))
+T('k18_value_format_r', ['C18'], (META, "            trunc_val = _trunc(repr(val))", "            trunc_val = _trunc('{0!r}'.format(val))"))
+T('k18_value_fstring_r', ['C18'], (META, "            trunc_val = _trunc(repr(val))", "            trunc_val = _trunc(f'{val!r}')"))
+T('k18_value_with_type_name', ['C18'], (META, "        ret.append({'key': key, 'value': trunc_val})",
+                                        "        ret.append({'key': key, 'value': trunc_val, 'type': '?' if 'secret' in key else type(val).__name__})"))
+
+# R18.f: kinds of the values put into the page contexts
+B('k18f_class_object_attr', ['C18'], 'R18.f', (META, "        cur['type_name'] = mw.__class__.__name__\n", "        cur['type_name'] = mw.__class__.__name__\n        cur['type'] = mw.__class__\n"))
+B('k18f_class_object_type_call', ['C18'], 'R18.f', (META, "            ret['arg'] = render_arg.__class__.__name__", "            ret['arg'] = type(render_arg)"))
+B('k18f_endpoint_object', ['C18'], 'R18.f', (META, "        r_info['endpoint'] = get_endpoint_info(r)\n", "        r_info['endpoint'] = get_endpoint_info(r)\n        r_info['endpoint_obj'] = r.endpoint\n"))
+B('k18f_exception_object', ['C18'], 'R18.f', (META, "                peri_ctx = {'exc_content': repr(e)}", "                peri_ctx = {'exc_content': repr(e), 'exc': e}"))
+B('k18f_generator_stored', ['C18'], 'R18.f', (META, "    ret['version_info'] = list(sys.version_info)", "    ret['version_info'] = (int(v) for v in sys.version_info[:3])"))
+B('k18f_map_stored', ['C18'], 'R18.f', (META, "    ret['version_info'] = list(sys.version_info)", "    ret['version_info'] = map(str, sys.version_info)"))
+B('k18f_module_stored', ['C18'], 'R18.f', (META, "    ret['platform'] = platform.platform()", "    ret['platform'] = platform"))
+B('k18f_function_stored', ['C18'], 'R18.f', (META, "    ret['rusage'] = get_rusage_dict()", "    ret['rusage'] = get_rusage_dict"))
+B('k18f_bound_method_stored', ['C18'], 'R18.f', (META, "        full_ctx = {'page_title': self.page_title}", "        full_ctx = {'page_title': self.page_title, 'main': self.get_main}"))
+B('k18f_class_via_helper_return', ['C18'], 'R18.f', (META, "def get_mw_infos(_application):\n", "def mw_type(mw):\n    return type(mw)\n\n\ndef get_mw_infos(_application):\n"),
+  (META, "        cur['type_name'] = mw.__class__.__name__\n", "        cur['type_name'] = mw.__class__.__name__\n        cur['type'] = mw_type(mw)\n"))
+B('k18f_instance_stored', ['C18'], 'R18.f', (META, "        return {'middlewares': get_mw_infos(_application)}", "        return {'middlewares': get_mw_infos(_application), 'section': MiddlewarePeripheral()}"))
+B('k18f_generator_function_result', ['C18'], 'R18.f', (META, GMI, '''def iter_mw_infos(_application):
+    for mw in _application.middlewares:
+        yield {'type_name': mw.__class__.__name__, 'provides': mw.provides, 'requires': mw.requires, 'repr': repr(mw)}
+
+
+def get_mw_infos(_application):
+    return iter_mw_infos(_application)
+'''))
+T('k18f_type_name', ['C18'], (META, "        cur['type_name'] = mw.__class__.__name__\n", "        cur['type_name'] = type(mw).__name__\n        cur['module'] = type(mw).__module__\n"))
+T('k18f_map_materialised', ['C18'], (META, "    ret['version_info'] = list(sys.version_info)", "    ret['version_info'] = list(map(int, sys.version_info[:3])) + [str(v) for v in sys.version_info[3:]]"))
+T('k18f_generator_in_tuple_call', ['C18'], (META, "    ret['version_info'] = list(sys.version_info)", "    ret['version_info'] = tuple(v for v in sys.version_info)"))
+T('k18f_exception_text', ['C18'], (META, "                peri_ctx = {'exc_content': repr(e)}", "                peri_ctx = {'exc_content': repr(e), 'exc_type': type(e).__name__, 'exc_text': str(e)}"))
+T('k18f_function_name', ['C18'], (META, "    ret['rusage'] = get_rusage_dict()", "    ret['rusage'] = get_rusage_dict()\n    ret['rusage_source'] = get_rusage_dict.__name__"))
+T('k18f_generator_function_listed', ['C18'], (META, GMI, '''def iter_mw_infos(_application):
+    for mw in _application.middlewares:
+        yield {'type_name': mw.__class__.__name__, 'provides': mw.provides, 'requires': mw.requires, 'repr': repr(mw)}
+
+
+def get_mw_infos(_application):
+    return list(iter_mw_infos(_application))
+'''))
